@@ -427,6 +427,12 @@ func (jf *JSONFamily) Install() {
 		switch {
 		case f.Name() == "marshalJSONInnerBody" && !ptr && isStruct && jt.Schema.IsObjectLike():
 			jf.installInner(f, jt)
+			for _, g := range f.AnonFuncs {
+				ps := g.Signature.Params()
+				if ps.Len() == 2 && e2s(ps.At(0).Type()) == "string" && types.IsInterface(ps.At(1).Type()) {
+					jf.installWriteProperty(g, f)
+				}
+			}
 		case f.Name() == "MarshalJSON" && !ptr && isStruct && jt.Schema.IsObjectLike():
 			jf.installOuter(f, jt)
 		}
@@ -528,3 +534,122 @@ func (e *FuncEnc) noteWriter(w string) {
 }
 
 var _ = strings.Join
+
+func e2s(t types.Type) string { return t.String() }
+
+// ---------------------------------------------------------------- writeProperty
+//
+//	emitted func marshalJSONInnerBody$writeProperty(name string, v any)     -- closure over err, write, comma, encoder
+//	  requires enc_writer(encoder) == out && out != nil
+//	  ensures old(err) != nil ==> err == old(err) && comma == old(comma) && views(out) unchanged
+//	  ensures err == nil ==> old(err) == nil && comma == "," &&
+//	          (v == nil ? views(out) == views after the token  old(comma) "name" :null
+//	                    : views(out) == views after the token  old(comma) "name" :  followed by Encode(v))
+//	  ensures jst(old) == 99 ==> jst == 99;  other writers keep their views
+//
+// (a member name is "safe" when the text between the quotes is a JSON string
+// body as it stands: decided by evaluation for literal names, undecided
+// otherwise)
+
+func localAlloc(parent *ssa.Function, name string) *ssa.Alloc {
+	for _, b := range parent.Blocks {
+		for _, in := range b.Instrs {
+			if al, ok := in.(*ssa.Alloc); ok && al.Comment == name {
+				return al
+			}
+		}
+	}
+	return nil
+}
+
+func (e *FuncEnc) cellLoad(st *state, al *ssa.Alloc) string {
+	return e.load(st, e.v(al), al.Type().Underlying().(*types.Pointer).Elem())
+}
+
+func viewsEq(trA, trB, w string) string {
+	var cs []string
+	for _, view := range []string{"jst", "jobj", "jdup", "jkey", "jarr"} {
+		cs = append(cs, eq(sx(view, trA, w), sx(view, trB, w)))
+	}
+	return and(cs...)
+}
+
+func (e *FuncEnc) safeKeyTerm(name string) string {
+	if txt, ok := e.D.LitText(name); ok {
+		if jsonSafeKey(txt) {
+			return "true"
+		}
+		return "false"
+	}
+	return sx(e.D.UF("safekey", []string{"Str"}, "Bool"), name)
+}
+
+func (jf *JSONFamily) installWriteProperty(g, parent *ssa.Function) {
+	errA, commaA, outA, encA := localAlloc(parent, "err"), localAlloc(parent, "comma"), localAlloc(parent, "out"), localAlloc(parent, "encoder")
+	if errA == nil || commaA == nil || outA == nil || encA == nil {
+		jf.note(parent.String() + ": writeProperty closure without the expected captured variables")
+		return
+	}
+	c := newFamilyContract(g)
+	c.Options["family"] = "json-writeProperty"
+	D := func(e *FuncEnc) {
+		e.jsonEvents()
+		e.D.UF("enc_writer", []string{"Int"}, "Iface")
+	}
+	// frame: only the err and comma variables are written (checked at the returns)
+	cellT := func(al *ssa.Alloc) types.Type { return al.Type().Underlying().(*types.Pointer).Elem() }
+	dd := NewDecls()
+	modKeys := map[string]bool{dd.heapKey(cellT(errA)): true, dd.heapKey(cellT(commaA)): true}
+	c.Modifies = modKeys
+	c.PreHook = func(e *FuncEnc, args []string) []NamedFormula {
+		D(e)
+		w := e.cellLoad(e.cur, outA)
+		enc := e.cellLoad(e.cur, encA)
+		e.noteWriter(w)
+		return []NamedFormula{{Name: "encoder-writes-to-out", Props: []string{"C06"}, Formula: and(not(eq(sx("if_tag", w), "0")), not(eq(enc, "0")), eq(sx("enc_writer", enc), w))}}
+	}
+	spec := func(e *FuncEnc, name, v string, pre, post *state) []NamedFormula {
+		D(e)
+		w := e.cellLoad(pre, outA)
+		e0, e1 := e.cellLoad(pre, errA), e.cellLoad(post, errA)
+		c0, c1 := e.cellLoad(pre, commaA), e.cellLoad(post, commaA)
+		nil0, nil1 := eq(sx("if_tag", e0), "0"), eq(sx("if_tag", e1), "0")
+		safe := e.safeKeyTerm(name)
+		tokNull := sx("tr_cons", pre.trace, sx("ev_jw_tok", w, itoa(jkKeyNull), c0, name, safe))
+		tokKey := sx("tr_cons", pre.trace, sx("ev_jw_tok", w, itoa(jkKey), c0, name, safe))
+		enc := sx("tr_cons", tokKey, sx("ev_jw_enc", w, v))
+		out := []NamedFormula{
+			{Name: "ensures#skipped-after-error", Props: []string{"C06"}, Formula: implies(not(nil0), and(eq(e1, e0), eq(c1, c0), viewsEq(post.trace, pre.trace, w)))},
+			{Name: "ensures#member-written", Props: []string{"C06", "C07"}, Formula: implies(nil1, and(nil0, eq(c1, "lit_comma"),
+				ite(eq(sx("if_tag", v), "0"), viewsEq(post.trace, tokNull, w), viewsEq(post.trace, enc, w))))},
+			{Name: "ensures#bad-stays-bad", Props: []string{"C06"}, Formula: implies(eq(sx("jst", pre.trace, w), "99"), eq(sx("jst", post.trace, w), "99"))},
+		}
+		for _, x := range e.jsonWriters() {
+			if x == w {
+				continue
+			}
+			out = append(out, NamedFormula{Name: "ensures#frame", Props: []string{"C06"}, Formula: implies(not(eq(x, w)), viewsEq(post.trace, pre.trace, x))})
+		}
+		return out
+	}
+	c.RetHook = func(e *FuncEnc, results []string) []NamedFormula {
+		out := spec(e, e.val[g.Params[0]], e.val[g.Params[1]], e.entry, e.cur)
+		frame := "true"
+		if e.cur.epoch != e.entry.epoch {
+			frame = "false"
+		}
+		for k, n := range e.cur.heaps {
+			if modKeys[k] || k == fsKey {
+				continue
+			}
+			if srt, ok := e.heapSorts[k]; ok && e.heapName(e.entry, k, srt) != n {
+				frame = "false"
+			}
+		}
+		return append(out, NamedFormula{Name: "frame#only-err-and-comma-written", Props: []string{"C06"}, Formula: frame})
+	}
+	c.PostHook = func(e *FuncEnc, args, results []string, pre, post *state) []NamedFormula {
+		return spec(e, args[0], args[1], pre, post)
+	}
+	jf.Em.W.Contracts[g.String()] = c
+}
